@@ -51,7 +51,7 @@ pub fn small_order_point<G: CurveTag>() -> Option<G> {
 
 fn case<G: CurveTag>(bytes: &[u8], col: &mut Collector) -> Result<(), Failure> {
     let mut ch = Choices::new(bytes);
-    let base_kind = ch.weighted(&[33, 24, 8, 8, 8, 9, 10]);
+    let base_kind = ch.weighted(&[31, 23, 8, 8, 8, 9, 10, 3]);
     let def = pc_gens::<G>();
     // bases that are not in the prime-order subgroup (cofactor curves): "any pair of bases"
     let torsion: Option<G> = small_order_point::<G>();
@@ -83,6 +83,7 @@ fn case<G: CurveTag>(bytes: &[u8], col: &mut Collector) -> Result<(), Failure> {
             PedersenGens { B: p, B_blinding: p }
         }
         3 => PedersenGens { B: def.B_blinding, B_blinding: def.B },
+        7 => PedersenGens { B: G::zero(), B_blinding: if ch.chance(128) { def.B_blinding } else { rand_point::<G>(ch.u16() as u64) } },
         _ => PedersenGens { B: def.B, B_blinding: G::zero() },
     };
     let v1s = ScalarSpec::gen(&mut ch);
@@ -107,7 +108,7 @@ fn case<G: CurveTag>(bytes: &[u8], col: &mut Collector) -> Result<(), Failure> {
             _ => {}
         }
     }
-    let bname = ["default", "random pair", "B = B_blinding", "swapped", "B_blinding = identity", "a base with a small-order component", "B_blinding = k*B"][base_kind];
+    let bname = ["default", "random pair", "B = B_blinding", "swapped", "B_blinding = identity", "a base with a small-order component", "B_blinding = k*B", "B = identity"][base_kind];
     let what = || json!({"curve": G::CURVE.name(), "bases": bname,
         "matched_opening": matched, "k": dep_k, "v1": v1s.short(), "r1": r1s.short(), "v2": v2s.short(), "r2": r2s.short(), "c": cs.short(), "v1_hex": f_hex(&v1), "r1_hex": f_hex(&r1)});
     let commit = |v: G::ScalarField, r: G::ScalarField| -> Result<G, Failure> {
@@ -211,7 +212,7 @@ fn case<G: CurveTag>(bytes: &[u8], col: &mut Collector) -> Result<(), Failure> {
         let carry = a.add_with_carry(&v2.into_bigint());
         carry || a >= <G::ScalarField as PrimeField>::MODULUS
     };
-    col.class(["bases:default", "bases:random", "bases:equal", "bases:swapped", "bases:identity-blinding", "bases:small-order-component", "bases:dependent"][base_kind]);
+    col.class(["bases:default", "bases:random", "bases:equal", "bases:swapped", "bases:identity-blinding", "bases:small-order-component", "bases:dependent", "bases:identity-value-base"][base_kind]);
     if !matched.is_empty() {
         col.class("dependent-bases:matched-opening");
     }
